@@ -9,6 +9,7 @@ import Iso8583.Drivers.Fields
 import Iso8583.Drivers.Net
 import Iso8583.Drivers.Describe
 import Iso8583.Drivers.Spec
+import Iso8583.Drivers.Layout
 
 namespace Iso8583.Driver
 
@@ -17,7 +18,8 @@ def handlers : List (List String → Option String) :=
     Iso8583.Drivers.Fields.handle,
     Iso8583.Drivers.Net.handle,
     Iso8583.Drivers.Describe.handle,
-    Iso8583.Drivers.Spec.handle ]
+    Iso8583.Drivers.Spec.handle,
+    Iso8583.Drivers.Layout.handle ]
 
 def runLine (line : String) : String :=
   let toks := line.splitOn " "
